@@ -357,7 +357,7 @@ def main(report, tier, seed, workers, calibrate=False):
     for cfg, res in zip(cfgs, results):
         report.functions |= set(res['functions'])
         st = res['stats']
-        solver.STATS.queries += st['queries'] + res['decisions']
+        solver.STATS.queries += st['queries']
         solver.STATS.seconds += st['solver_seconds']
         report.extra.setdefault('requests_executed', {})[res['name']] = res['executed']
         report.extra.setdefault('requests_skipped', {})[res['name']] = res['skipped'][:20]
